@@ -43,8 +43,8 @@ def strategy(tier, shard):
 
     @st.composite
     def cases(draw):
-        problem = draw(ckpt.problem_descs())
-        solver = draw(ckpt.solver_descs())
+        problem = draw(ckpt.problem_descs(rot=shard))
+        solver = draw(ckpt.solver_descs(rot=shard))
         route = "load" if problem["kind"] == "tabular" else draw(st.sampled_from(["restore", "restore", "load"]))
         ov = dict(new_dir=draw(st.booleans()), frequency=draw(st.sampled_from([None, None, 1, 2, 0])),
                   keep=draw(st.sampled_from([None, None, 1, 4])), async_=draw(st.sampled_from([None, True, False])))
